@@ -80,6 +80,16 @@ def job_estimate(j):
         src = GroupLibrary.Load(j['lib'])
         lib = GroupLibrary(src.scheme)
         lib.Update(src)
+    if j.get('copied_then_widened'):
+        # the groups of this library were copied into another library (Update), and the COPIES were then widened by a further merge:
+        # the library estimated from below is the untouched original
+        lib = GroupLibrary.Load(j['lib'])
+        other = GroupLibrary(lib.scheme)
+        other.Update(lib)
+        for k_ in list(lib):
+            if 'thermochem' in lib[k_]:
+                lib[k_]['thermochem'].copy()
+        other.Update(GroupLibrary.Load(j['copied_then_widened']))
     if j.get('update_from'):
         # this library object has ALREADY estimated the very same mapping, and was then merged into from another library
         # (same data, wider ranges): the estimate made now reflects the library as it is now
